@@ -4,13 +4,27 @@
 // and the state of the searchers before, between and after the runs.  On the Go side the
 // results are also checked against a brute-force filter of the word list.
 //
-// Case:  <searchers>;tok tok tok
+// Case:  [@<provenance>@]<searchers>;tok tok tok
 // <searchers> = comma separated list (possibly empty) of P:<hex pattern>:<hex blank> or
 // A:<hex anagram>:<hex blank> ("-" = empty); each token is a word in hex ("-" = the empty word).
+//
+// <provenance> (optional, default "n--") says how the Dawg object that is searched is obtained
+// from the word list; the model side ignores it (the expected answer is the model's search on the
+// Dawg of the word list, whatever way the API was used to get a Dawg holding these words):
+//   <src><via><tgt>[:<hex>.<hex>...]
+//   src  n dawg.New | z zero-value Builder, Add..., Finish | i Builder after Initialise |
+//        r a Builder that first built the other word list, then Initialise, then this one
+//   via  - search the source object itself | g GobEncode + GobDecode | e through encoding/gob |
+//        2 two generations (encode, decode into a fresh value, encode that, decode)
+//   tgt  the value decoded into:  f new(Dawg) | n,z,i a Dawg that held the other word list (built
+//        by New / zero Builder / initialised Builder) | d a value that was itself decoded from
+//        the other word list | s the source object itself
+//   the list after ':' is the other word list (strictly increasing, "-" = the empty word).
 package main
 
 import (
 	"bytes"
+	"encoding/gob"
 	"encoding/hex"
 	"fmt"
 	"reflect"
@@ -50,7 +64,30 @@ func (s spec) String() string {
 	return fmt.Sprintf("%c:%s:%02x", s.kind, hexWord(s.body), s.blank)
 }
 
-func caseLine(specs []spec, words [][]byte) string {
+// prov: how the searched Dawg object is obtained (see the package comment)
+type prov struct {
+	src, via, tgt byte
+	prev          [][]byte
+}
+
+var plain = prov{src: 'n', via: '-', tgt: '-'}
+
+func (p prov) String() string {
+	if p.src == 'n' && p.via == '-' {
+		return ""
+	}
+	s := "@" + string([]byte{p.src, p.via, p.tgt})
+	if len(p.prev) > 0 {
+		ws := make([]string, len(p.prev))
+		for i, w := range p.prev {
+			ws[i] = hexWord(w)
+		}
+		s += ":" + strings.Join(ws, ".")
+	}
+	return s + "@"
+}
+
+func caseLine(pv prov, specs []spec, words [][]byte) string {
 	ss := make([]string, len(specs))
 	for i, s := range specs {
 		ss[i] = s.String()
@@ -59,13 +96,32 @@ func caseLine(specs []spec, words [][]byte) string {
 	for i, w := range words {
 		ws[i] = hexWord(w)
 	}
-	return strings.Join(ss, ",") + ";" + strings.Join(ws, " ")
+	return pv.String() + strings.Join(ss, ",") + ";" + strings.Join(ws, " ")
 }
 
-func parseCase(line string) ([]spec, [][]byte) {
+func parseCase(line string) (prov, []spec, [][]byte) {
 	i := strings.LastIndex(line, ";")
+	head := line[:i]
+	pv := plain
+	if strings.HasPrefix(head, "@") {
+		j := strings.Index(head[1:], "@")
+		if j < 3 {
+			panic("bad provenance " + head)
+		}
+		ps := head[1 : 1+j]
+		head = head[j+2:]
+		pv = prov{src: ps[0], via: ps[1], tgt: ps[2]}
+		if len(ps) > 3 {
+			if ps[3] != ':' {
+				panic("bad provenance " + ps)
+			}
+			for _, t := range strings.Split(ps[4:], ".") {
+				pv.prev = append(pv.prev, unhex(t))
+			}
+		}
+	}
 	var specs []spec
-	for _, t := range strings.Split(line[:i], ",") {
+	for _, t := range strings.Split(head, ",") {
 		if t == "" {
 			continue
 		}
@@ -83,7 +139,7 @@ func parseCase(line string) ([]spec, [][]byte) {
 	for _, t := range strings.Fields(line[i+1:]) {
 		words = append(words, unhex(t))
 	}
-	return specs, words
+	return pv, specs, words
 }
 
 // ---------------------------------------------------------------- independent oracle
@@ -266,21 +322,67 @@ func wellFormed(dump []dawg.VerifNode) string {
 	return visit(0)
 }
 
-func exec(line string) hx.Result {
-	specs, words := parseCase(line)
-	var res hx.Result
-	d, err := dawg.New(words)
-	if err != nil {
-		res.Obs = "new-error"
-		return res
+// ---------------------------------------------------------------- obtaining the Dawg
+
+func addAll(b *dawg.Builder, ws [][]byte) (*dawg.Dawg, error) {
+	for _, w := range ws {
+		if err := b.Add(append([]byte{}, w...)); err != nil {
+			return nil, err
+		}
 	}
-	before := d.VerifDump()
-	if msg := wellFormed(before); msg != "" {
-		res.Viol = append(res.Viol, hx.Fail("C13:dawg-wellformed", "the Dawg built by dawg.New is not well-formed: %s", msg))
+	return b.Finish()
+}
+
+func build(how byte, ws [][]byte) (*dawg.Dawg, error) {
+	switch how {
+	case 'z':
+		var b dawg.Builder
+		return addAll(&b, ws)
+	case 'i':
+		b := new(dawg.Builder)
+		b.Initialise()
+		return addAll(b, ws)
+	case 'n':
+		return dawg.New(ws)
 	}
+	panic("bad provenance: builder " + string(how))
+}
+
+func transport(via byte, src, tgt *dawg.Dawg) error {
+	switch via {
+	case 'g':
+		enc, err := src.GobEncode()
+		if err != nil {
+			return err
+		}
+		return tgt.GobDecode(enc)
+	case 'e':
+		var buf bytes.Buffer
+		if err := gob.NewEncoder(&buf).Encode(src); err != nil {
+			return err
+		}
+		return gob.NewDecoder(&buf).Decode(tgt)
+	case '2':
+		enc, err := src.GobEncode()
+		if err != nil {
+			return err
+		}
+		mid := new(dawg.Dawg)
+		if err := mid.GobDecode(enc); err != nil {
+			return err
+		}
+		enc2, err := mid.GobEncode()
+		if err != nil {
+			return err
+		}
+		return tgt.GobDecode(enc2)
+	}
+	panic("bad provenance: transport " + string(via))
+}
+
+func newSearchers(specs []spec) ([]live, []dawg.Searcher) {
 	ls := make([]live, len(specs))
 	srch := make([]dawg.Searcher, len(specs))
-	kinds := ""
 	for i, sp := range specs {
 		ls[i].sp = sp
 		// the constructors keep the slices they are given: hand each its own copy
@@ -292,18 +394,12 @@ func exec(line string) hx.Result {
 			ls[i].a = dawg.NewAnagramSearcher(body, sp.blank)
 			srch[i] = ls[i].a
 		}
-		kinds += string(sp.kind)
 	}
-	s0, c0 := states(ls, live.proj), states(ls, live.strict)
-	w1, i1 := d.Search(srch...)
-	r1 := solnString(w1, i1)
-	s1, c1 := states(ls, live.proj), states(ls, live.strict)
-	w2, i2 := d.Search(srch...)
-	r2 := solnString(w2, i2)
-	s2, c2 := states(ls, live.proj), states(ls, live.strict)
-	res.Obs = fmt.Sprintf("s0=%s r1=%s s1=%s r2=%s s2=%s ## c0=%s c1=%s c2=%s", s0, r1, s1, r2, s2, c0, c1, c2)
+	return ls, srch
+}
 
-	// brute-force oracle on the word list
+// brute-force oracle on a word list
+func bruteForce(specs []spec, words [][]byte) (string, int) {
 	var ow [][]byte
 	var oi []int
 	for k, w := range words {
@@ -319,7 +415,107 @@ func exec(line string) hx.Result {
 			oi = append(oi, k)
 		}
 	}
-	want := solnString(ow, oi)
+	return solnString(ow, oi), len(ow)
+}
+
+// side object (the Dawg of the other word list, or the source after it was encoded): one search
+// with fresh searcher objects against the brute-force filter
+func sideSearch(res *hx.Result, key, what string, d *dawg.Dawg, specs []spec, words [][]byte) {
+	_, srch := newSearchers(specs)
+	w, i := d.Search(srch...)
+	got := solnString(w, i)
+	if want, _ := bruteForce(specs, words); got != want {
+		res.Viol = append(res.Viol, hx.Fail(key, "%s: Search returned %s, the matching words with ranks are %s", what, got, want))
+	}
+}
+
+// obtain builds the Dawg object to be searched in the way pv says.
+func obtain(res *hx.Result, pv prov, specs []spec, words [][]byte) (*dawg.Dawg, string) {
+	var src *dawg.Dawg
+	var err error
+	if pv.src == 'r' {
+		var b dawg.Builder
+		first, e := addAll(&b, pv.prev)
+		if e != nil {
+			return nil, "new-error"
+		}
+		b.Initialise()
+		src, err = addAll(&b, words)
+		if err == nil {
+			sideSearch(res, "C13:builder-reuse", "the Dawg finished before the Builder was initialised again", first, specs, pv.prev)
+		}
+	} else {
+		src, err = build(pv.src, words)
+	}
+	if err != nil {
+		return nil, "new-error"
+	}
+	if pv.via == '-' {
+		return src, ""
+	}
+	var tgt *dawg.Dawg
+	switch pv.tgt {
+	case 'f':
+		tgt = new(dawg.Dawg)
+	case 's':
+		tgt = src
+	case 'n', 'z', 'i':
+		if tgt, err = build(pv.tgt, pv.prev); err != nil {
+			return nil, "new-error"
+		}
+	case 'd':
+		p0, e := dawg.New(pv.prev)
+		if e != nil {
+			return nil, "new-error"
+		}
+		tgt = new(dawg.Dawg)
+		if e := transport('g', p0, tgt); e != nil {
+			return nil, "transport-error"
+		}
+	default:
+		panic("bad provenance: target " + string(pv.tgt))
+	}
+	if pv.tgt != 'f' && pv.tgt != 's' {
+		// the value is in use before it is decoded into
+		sideSearch(res, "C13:previous-contents", "the Dawg of the other word list (before it is decoded into)", tgt, specs, pv.prev)
+	}
+	if err := transport(pv.via, src, tgt); err != nil {
+		return nil, "transport-error"
+	}
+	if pv.tgt != 's' {
+		sideSearch(res, "C13:source-after-encode", "the encoded Dawg after GobEncode", src, specs, words)
+	}
+	return tgt, ""
+}
+
+func exec(line string) hx.Result {
+	pv, specs, words := parseCase(line)
+	var res hx.Result
+	d, obs := obtain(&res, pv, specs, words)
+	if d == nil {
+		res.Obs = obs
+		return res
+	}
+	before := d.VerifDump()
+	if msg := wellFormed(before); msg != "" {
+		res.Viol = append(res.Viol, hx.Fail("C13:dawg-wellformed", "the Dawg (provenance %q) is not well-formed: %s", pv.String(), msg))
+	}
+	ls, srch := newSearchers(specs)
+	kinds := ""
+	for _, sp := range specs {
+		kinds += string(sp.kind)
+	}
+	s0, c0 := states(ls, live.proj), states(ls, live.strict)
+	w1, i1 := d.Search(srch...)
+	r1 := solnString(w1, i1)
+	s1, c1 := states(ls, live.proj), states(ls, live.strict)
+	w2, i2 := d.Search(srch...)
+	r2 := solnString(w2, i2)
+	s2, c2 := states(ls, live.proj), states(ls, live.strict)
+	res.Obs = fmt.Sprintf("s0=%s r1=%s s1=%s r2=%s s2=%s ## c0=%s c1=%s c2=%s", s0, r1, s1, r2, s2, c0, c1, c2)
+
+	// brute-force oracle on the word list
+	want, hits := bruteForce(specs, words)
 	if r1 != want {
 		res.Viol = append(res.Viol, hx.Fail("C13:oracle-first", "first Search returned %s, the matching words with ranks are %s", r1, want))
 	}
@@ -332,11 +528,37 @@ func exec(line string) hx.Result {
 	if !reflect.DeepEqual(before, d.VerifDump()) {
 		res.Viol = append(res.Viol, hx.Fail("C13:dawg-changed", "Search changed the Dawg"))
 	}
+	// the same searcher objects, as the two runs left them, on another Dawg (the Dawg of the
+	// other word list of the provenance, or of the words reversed in order of length): they are
+	// back in their initial state, so the answer is again the brute-force one
+	other := pv.prev
+	if len(other) == 0 {
+		for _, w := range words {
+			if len(w) > 0 {
+				other = append(other, w[:len(w)-1])
+			}
+		}
+		other = sortDedupe(other)
+	}
+	if od, err := dawg.New(other); err == nil {
+		w3, i3 := od.Search(srch...)
+		r3 := solnString(w3, i3)
+		if want3, _ := bruteForce(specs, other); r3 != want3 {
+			res.Viol = append(res.Viol, hx.Fail("C13:searchers-on-another-dawg", "the searcher objects used on a second Dawg (words %s): Search returned %s, the matching words with ranks are %s", solnString(other, make([]int, len(other))), r3, want3))
+		}
+	}
+	// the lists returned by the first run are still what they were (not aliased by later calls)
+	if again := solnString(w1, i1); again != r1 {
+		res.Viol = append(res.Viol, hx.Fail("C13:result-aliased", "the lists returned by the first Search changed during later calls: %s, now %s", r1, again))
+	}
+	if again := solnString(w2, i2); again != r2 {
+		res.Viol = append(res.Viol, hx.Fail("C13:result-aliased", "the lists returned by the second Search changed during later calls: %s, now %s", r2, again))
+	}
 	// non-triviality (DESIGN 4.4): a shared node or a word that is a proper prefix of another,
 	// and at least one word returned
 	np, pp := countPrefixes(words)
 	shared := d.VerifNodeCount() < np+1
-	res.Nontrivial = (shared || pp) && len(ow) > 0
+	res.Nontrivial = (shared || pp) && hits > 0
 	longA := false
 	for _, sp := range specs {
 		if sp.kind == 'A' && len(sp.body) > 12 {
@@ -349,12 +571,47 @@ func exec(line string) hx.Result {
 	res.Buckets = []string{
 		"searchers:" + kinds,
 		fmt.Sprintf("words<=%d", bucket(len(words))),
-		fmt.Sprintf("hits<=%d", bucket(len(ow))),
+		fmt.Sprintf("hits<=%d", bucket(hits)),
+		"provenance:" + string([]byte{pv.src, pv.via, pv.tgt}),
 		fmt.Sprintf("shared:%v prefix:%v", shared, pp),
 	}
 	if longA {
 		res.Buckets = append(res.Buckets, "anagram>12")
 	}
+	maxW, maxQ := 0, 0
+	var used [256]bool
+	for _, w := range words {
+		if len(w) > maxW {
+			maxW = len(w)
+		}
+		for _, c := range w {
+			used[c] = true
+		}
+	}
+	for _, sp := range specs {
+		if len(sp.body) > maxQ {
+			maxQ = len(sp.body)
+		}
+		for _, c := range sp.body {
+			used[c] = true
+		}
+		used[sp.blank] = true
+	}
+	// largest modulus 2^k (k = 3..7) at which two different bytes of the case (letters of the
+	// words, of the queries, blank bytes) collide
+	coll := "none"
+	for _, m := range []int{8, 16, 32, 64, 128} {
+		var seen [128]bool
+		for b := 0; b < 256; b++ {
+			if used[b] {
+				if seen[b%m] {
+					coll = fmt.Sprint(m)
+				}
+				seen[b%m] = true
+			}
+		}
+	}
+	res.Buckets = append(res.Buckets, fmt.Sprintf("wordlen<=%d", bucket(maxW)), fmt.Sprintf("querylen<=%d", bucket(maxQ)), "bytes-collide-mod:"+coll)
 	return res
 }
 
@@ -379,8 +636,64 @@ func randWord(r *hx.Rng, alpha []byte, n int) []byte {
 	return w
 }
 
+// two to four different bytes congruent modulo m (m = 8, 16, 32, 64, 128), sometimes with one
+// unrelated letter: 'p' and '0', 'a' and 'A' and '!', 0x05 and 0x85, ...
+func congruentAlphabet(r *hx.Rng) []byte {
+	m := []int{8, 16, 32, 64, 64, 128}[r.Intn(6)]
+	x := r.Intn(256)
+	if r.Bool() {
+		x = r.Range(0x20, 0x7e)
+	}
+	k := r.Range(2, 4)
+	if k > 256/m {
+		k = 256 / m
+	}
+	var a []byte
+	for _, j := range r.Perm(256 / m)[:k] {
+		a = append(a, byte((x+j*m)%256))
+	}
+	if r.Chance(1, 3) {
+		c := byte(r.Intn(256))
+		if bytes.IndexByte(a, c) < 0 {
+			a = append(a, c)
+		}
+	}
+	return a
+}
+
+// a byte congruent to a letter of the alphabet modulo 32, 64 or 128 and different from it
+func congruentByte(r *hx.Rng, alpha []byte) byte {
+	c := alpha[r.Intn(len(alpha))]
+	m := []int{32, 64, 128}[r.Intn(3)]
+	return byte((int(c) + m*r.Range(1, 256/m-1)) % 256)
+}
+
+// a letter for queries that is (usually) not a letter of the words
+func outsideLetter(r *hx.Rng, alpha []byte) byte {
+	switch r.Intn(3) {
+	case 0:
+		return 'z'
+	case 1:
+		return congruentByte(r, alpha)
+	default:
+		return byte(r.Intn(256))
+	}
+}
+
 func randAlphabet(r *hx.Rng) []byte {
-	switch r.Intn(6) {
+	switch r.Intn(10) {
+	case 6, 7, 8:
+		return congruentAlphabet(r)
+	case 9: // any bytes
+		k := r.Range(2, 8)
+		var a []byte
+		for len(a) < k {
+			c := byte(r.Intn(256))
+			if bytes.IndexByte(a, c) < 0 {
+				a = append(a, c)
+			}
+		}
+		return a
 	case 0:
 		return []byte("a")
 	case 1:
@@ -496,7 +809,9 @@ func randWords(r *hx.Rng, alpha []byte) [][]byte {
 }
 
 func randBlank(r *hx.Rng, alpha []byte) byte {
-	switch r.Intn(5) {
+	switch r.Intn(7) {
+	case 5, 6: // collides with a letter modulo 32/64/128 (and may be another letter of the words)
+		return congruentByte(r, alpha)
 	case 0: // a letter of the alphabet: the blank byte occurs as a real letter in the words
 		return alpha[r.Intn(len(alpha))]
 	case 1:
@@ -511,6 +826,7 @@ func randBlank(r *hx.Rng, alpha []byte) byte {
 // a searcher derived from the word w (so that it has a good chance to accept something), or
 // a random one
 func randSpec(r *hx.Rng, alpha []byte, w []byte, blank byte) spec {
+	out := outsideLetter(r, alpha)
 	kind := byte('P')
 	if r.Bool() {
 		kind = 'A'
@@ -518,7 +834,7 @@ func randSpec(r *hx.Rng, alpha []byte, w []byte, blank byte) spec {
 	var body []byte
 	switch r.Intn(8) {
 	case 0: // random, any length
-		body = randWord(r, append(append([]byte{}, alpha...), blank, blank, 'z'), r.Range(0, 6))
+		body = randWord(r, append(append([]byte{}, alpha...), blank, blank, out), r.Range(0, 6))
 	case 1: // all blanks
 		body = bytes.Repeat([]byte{blank}, r.Range(0, len(w)+1))
 	default:
@@ -545,12 +861,173 @@ func randSpec(r *hx.Rng, alpha []byte, w []byte, blank byte) spec {
 			}
 		case 2: // a letter outside the alphabet
 			if len(body) > 0 {
-				body[r.Intn(len(body))] = 'z'
+				body[r.Intn(len(body))] = out
 			}
 		case 3: // one letter changed
 			if len(body) > 0 {
 				body[r.Intn(len(body))] = alpha[r.Intn(len(alpha))]
 			}
+		}
+	}
+	return spec{kind: kind, body: body, blank: blank}
+}
+
+// ---------------------------------------------------------------- provenance
+
+var provSrcs = []byte("nzir")
+var provVias = []byte("ge2")
+var provTgts = []byte("fnzids")
+
+// the other word list (what the decoded-into value held before / what a reused Builder built
+// first): shorter words, longer words, unrelated words, the same words, nothing, only the empty
+// word; with and without the empty word
+func prevWords(r *hx.Rng, alpha []byte, words [][]byte, kind int) [][]byte {
+	maxLen := 0
+	for _, w := range words {
+		if len(w) > maxLen {
+			maxLen = len(w)
+		}
+	}
+	var ws [][]byte
+	switch kind % 6 {
+	case 0: // truncations: every word strictly shorter than the longest of the final list
+		l := 0
+		if maxLen > 1 {
+			l = r.Range(0, maxLen-1)
+			if r.Bool() {
+				l = maxLen - 1
+			}
+		}
+		for _, w := range words {
+			if len(w) > l {
+				w = w[:l]
+			}
+			if r.Chance(5, 6) {
+				ws = append(ws, append([]byte{}, w...))
+			}
+		}
+	case 1: // extensions: longer words
+		for _, w := range words {
+			ws = append(ws, append(append([]byte{}, w...), randWord(r, alpha, r.Range(1, 3))...))
+		}
+	case 2:
+		ws = randWords(r, alpha)
+	case 3:
+		for _, w := range words {
+			ws = append(ws, append([]byte{}, w...))
+		}
+	case 4:
+	default:
+		ws = append(ws, []byte{})
+	}
+	ws = sortDedupe(ws)
+	if kind%6 < 4 && r.Chance(1, 3) { // toggle the empty word
+		if len(ws) > 0 && len(ws[0]) == 0 {
+			ws = ws[1:]
+		} else {
+			ws = append([][]byte{{}}, ws...)
+		}
+	}
+	return ws
+}
+
+func randProv(r *hx.Rng, alpha []byte, words [][]byte) prov {
+	pv := prov{src: provSrcs[r.Intn(4)], via: '-', tgt: '-'}
+	if r.Chance(2, 3) {
+		pv.via = provVias[r.Intn(3)]
+		pv.tgt = provTgts[r.Intn(6)]
+	}
+	if pv.src == 'r' || (pv.via != '-' && pv.tgt != 'f' && pv.tgt != 's') {
+		pv.prev = prevWords(r, alpha, words, r.Intn(6))
+	}
+	return pv
+}
+
+// a list of words around the length n (n >= 2) that share long prefixes: permutations of the
+// tail of one word, branches leaving it near the end, prefixes, extensions, and a word sorting
+// after all of these, so that a query of about n letters walks n deep, passes skipped branches
+// down there and reports words (with ranks) after them
+func deepWords(r *hx.Rng, alpha []byte, n int) (base []byte, words [][]byte) {
+	base = randWord(r, alpha, n)
+	ws := [][]byte{base}
+	cp := func(w []byte) []byte { return append([]byte{}, w...) }
+	for k := r.Range(1, 5); k > 0; k-- { // same multiset, long common prefix
+		v := cp(base)
+		t := r.Range(2, 4)
+		if t > n {
+			t = n
+		}
+		tail := v[n-t:]
+		for i, j := range r.Perm(t) {
+			tail[i] = base[n-t+j]
+		}
+		ws = append(ws, v)
+	}
+	for k := r.Range(1, 4); k > 0; k-- { // a branch leaving base within the last letters
+		cut := n - r.Range(1, 3)
+		if cut < 0 {
+			cut = 0
+		}
+		v := append(cp(base[:cut]), randWord(r, alpha, r.Range(1, 4))...)
+		ws = append(ws, v)
+	}
+	for k := r.Intn(3); k > 0; k-- { // whole permutations (anagram class)
+		v := make([]byte, n)
+		for i, j := range r.Perm(n) {
+			v[i] = base[j]
+		}
+		ws = append(ws, v)
+	}
+	if r.Bool() {
+		ws = append(ws, cp(base[:n-1]))
+	}
+	if r.Bool() {
+		ws = append(ws, cp(base[:r.Intn(n)]))
+	}
+	if r.Bool() {
+		ws = append(ws, append(cp(base), randWord(r, alpha, r.Range(1, 2))...))
+	}
+	if r.Chance(2, 3) { // later in the order: differs early, same length
+		v := cp(base)
+		v[r.Intn((n+3)/4)] = alpha[r.Intn(len(alpha))]
+		ws = append(ws, v)
+	}
+	return base, sortDedupe(ws)
+}
+
+// a query of about the length of w that keeps most of w (few blanks, so that the search does not
+// fan out over a deep automaton)
+func deepSpec(r *hx.Rng, alpha []byte, w []byte, blank byte) spec {
+	kind := byte('P')
+	if r.Bool() {
+		kind = 'A'
+	}
+	body := append([]byte{}, w...)
+	n := len(body)
+	for k := r.Intn(4); k > 0 && n > 0; k-- {
+		i := r.Intn(n)
+		if r.Bool() && n > 4 { // blanks near the end: several deep words match
+			i = n - 1 - r.Intn(4)
+		}
+		body[i] = blank
+	}
+	if kind == 'A' && r.Chance(2, 3) {
+		v := make([]byte, n)
+		for i, j := range r.Perm(n) {
+			v[i] = body[j]
+		}
+		body = v
+	}
+	switch r.Intn(8) {
+	case 0:
+		body = append(body, alpha[r.Intn(len(alpha))])
+	case 1:
+		if n > 0 {
+			body = body[:n-1]
+		}
+	case 2:
+		if n > 0 {
+			body[r.Intn(n)] = outsideLetter(r, alpha)
 		}
 	}
 	return spec{kind: kind, body: body, blank: blank}
@@ -567,7 +1044,8 @@ func gen(g *hx.Gen) {
 	}
 	P := func(p string, blank byte) spec { return spec{'P', []byte(p), blank} }
 	A := func(a string, blank byte) spec { return spec{'A', []byte(a), blank} }
-	do := func(specs []spec, words [][]byte) { g.Emit(caseLine(specs, words)) }
+	do := func(specs []spec, words [][]byte) { g.Emit(caseLine(plain, specs, words)) }
+	doP := func(pv prov, specs []spec, words [][]byte) { g.Emit(caseLine(pv, specs, words)) }
 
 	// corpus: the non-vacuity examples of Props/C13.v and the shapes the constructor's odd
 	// comparator and its `i > 1` test can get wrong
@@ -720,7 +1198,248 @@ func gen(g *hx.Gen) {
 			}
 			specs[k] = randSpec(r, alpha, base, bl)
 		}
-		do(specs, words)
+		if r.Chance(1, 3) {
+			doP(randProv(r, alpha, words), specs, words)
+		} else {
+			do(specs, words)
+		}
+	}
+
+	// object provenance, systematically: one search scenario on the Dawg obtained in every way
+	// (every builder; every transport x every kind of decoded-into value), the other word list
+	// cycling through shorter / longer / unrelated / same / none / only the empty word
+	countProv := g.Pick(300, 3000)
+	for i := 0; i < countProv; i++ {
+		alpha := randAlphabet(r)
+		words := randWords(r, alpha)
+		for t := 0; len(words) < 2 && t < 5; t++ {
+			words = randWords(r, alpha)
+		}
+		if len(words) == 0 {
+			words = [][]byte{randWord(r, alpha, r.Range(1, 4))}
+		}
+		blank := randBlank(r, alpha)
+		base := words[r.Intn(len(words))]
+		if r.Bool() { // a longest word: the query is longer than every word of a shorter list
+			for _, w := range words {
+				if len(w) > len(base) {
+					base = w
+				}
+			}
+		}
+		specs := []spec{randSpec(r, alpha, base, blank)}
+		if r.Chance(1, 4) {
+			specs = append(specs, randSpec(r, alpha, base, blank))
+		}
+		k := r.Intn(6)
+		for _, src := range provSrcs {
+			pv := prov{src: src, via: '-', tgt: '-'}
+			if src == 'r' {
+				pv.prev = prevWords(r, alpha, words, k)
+				k++
+			}
+			doP(pv, specs, words)
+		}
+		for _, via := range provVias {
+			for _, tgt := range provTgts {
+				pv := prov{src: provSrcs[r.Intn(3)], via: via, tgt: tgt}
+				if tgt != 'f' && tgt != 's' {
+					pv.prev = prevWords(r, alpha, words, k)
+					k++
+				}
+				doP(pv, specs, words)
+			}
+		}
+	}
+
+	// long words and long queries at the lengths where buffers and bit sets change size
+	lengths := []int{7, 8, 9, 15, 16, 17, 31, 32, 33, 63, 64, 65, 127, 128, 129, 255, 256, 257}
+	perLength := g.Pick(96, 800)
+	for _, n := range lengths {
+		per := perLength
+		if n > 100 {
+			per = perLength / 8
+		}
+		for i := 0; i < per; i++ {
+			var alpha []byte
+			switch r.Intn(6) {
+			case 5: // one letter nearly everywhere: its count in an anagram runs up to the length
+				x, y := byte(r.Intn(256)), byte(r.Intn(256))
+				alpha = append(bytes.Repeat([]byte{x}, 15), y)
+				if r.Chance(1, 3) {
+					alpha = []byte{x}
+				}
+			case 0:
+				alpha = []byte("ab")
+			case 1:
+				alpha = []byte("abc")
+			case 2: // about as many letters as the word is long: anagrams with many different letters
+				k := n + r.Range(-1, 2)
+				if k > 256 {
+					k = 256
+				}
+				for _, c := range r.Perm(256)[:k] {
+					alpha = append(alpha, byte(c))
+				}
+			default:
+				alpha = randAlphabet(r)
+			}
+			m := n + r.Range(-1, 1)
+			base, words := deepWords(r, alpha, m)
+			blank := randBlank(r, alpha)
+			specs := []spec{deepSpec(r, alpha, base, blank)}
+			if r.Chance(1, 3) {
+				specs = append(specs, deepSpec(r, alpha, words[r.Intn(len(words))], blank))
+			}
+			if r.Chance(1, 2) {
+				doP(randProv(r, alpha, words), specs, words)
+			} else {
+				do(specs, words)
+			}
+		}
+	}
+
+	// many searchers at once: either all derived from one stored word (so that words survive),
+	// or all but one accepting everything of that length, the selective one anywhere in the list
+	for _, ns := range []int{4, 7, 8, 9, 15, 16, 17, 31, 32, 33, 63, 64, 65} {
+		for i := g.Pick(20, 80); i > 0; i-- {
+			alpha := randAlphabet(r)
+			words := randWords(r, alpha)
+			if len(words) == 0 {
+				words = [][]byte{randWord(r, alpha, r.Range(1, 5))}
+			}
+			blank := randBlank(r, alpha)
+			base := words[r.Intn(len(words))]
+			permissive := r.Bool()
+			specs := make([]spec, ns)
+			for k := range specs {
+				body := append([]byte{}, base...)
+				for j := range body {
+					if permissive || r.Chance(1, 3) {
+						body[j] = blank
+					}
+				}
+				specs[k] = spec{kind: 'P', body: body, blank: blank}
+				if r.Bool() {
+					specs[k].kind = 'A'
+					v := make([]byte, len(body))
+					for a, b := range r.Perm(len(body)) {
+						v[a] = body[b]
+					}
+					specs[k].body = v
+				}
+			}
+			if permissive || r.Chance(1, 4) { // the one that decides
+				k := r.Intn(ns)
+				if r.Bool() {
+					k = ns - 1 - r.Intn(2)
+				}
+				specs[k] = randSpec(r, alpha, base, blank)
+			}
+			do(specs, words)
+		}
+	}
+
+	// many words and many hits: (nearly) all words up to a length, the counts of words, of hits
+	// and the ranks crossing 8 ... 4096 (16384 in thorough)
+	shapes := [][2]int{{2, 3}, {2, 4}, {2, 5}, {2, 6}, {2, 7}, {2, 8}, {2, 9}, {2, 10}, {2, 11}, {3, 4}, {3, 5}, {3, 6}, {3, 7}, {4, 4}, {4, 5}}
+	if g.Thorough() {
+		shapes = append(shapes, [2]int{2, 12}, [2]int{2, 13}, [2]int{3, 8}, [2]int{4, 6})
+	}
+	for _, sh := range shapes {
+		for i := g.Pick(10, 40); i > 0; i-- {
+			alpha := randAlphabet(r)
+			for len(alpha) < sh[0] {
+				alpha = randAlphabet(r)
+			}
+			alpha = alpha[:sh[0]]
+			var ws [][]byte
+			var rec func(w []byte)
+			rec = func(w []byte) {
+				if len(w) == sh[1] || r.Chance(1, 16) {
+					if r.Chance(15, 16) {
+						ws = append(ws, append([]byte{}, w...))
+					}
+				}
+				if len(w) == sh[1] {
+					return
+				}
+				for _, c := range alpha {
+					rec(append(w, c))
+				}
+			}
+			rec(nil)
+			words := sortDedupe(ws)
+			if len(words) == 0 {
+				continue
+			}
+			blank := randBlank(r, alpha)
+			body := append([]byte{}, words[r.Intn(len(words))]...)
+			for len(body) < sh[1] {
+				body = append(body, blank)
+			}
+			kind := byte('P')
+			if r.Bool() {
+				kind = 'A'
+			}
+			switch r.Intn(3) {
+			case 0: // many blanks: many hits
+				for k := r.Range(sh[1]/2, sh[1]); k > 0; k-- {
+					body[r.Intn(len(body))] = blank
+				}
+			case 1: // only the first letter fixed, to the last letter in byte order: everything
+				// before it (a subtree holding most of the words) is skipped, then many hits
+				mx := alpha[0]
+				for _, c := range alpha {
+					if c > mx {
+						mx = c
+					}
+				}
+				for k := range body {
+					body[k] = blank
+				}
+				body[0] = mx
+				if blank == mx {
+					kind = 'P' // all blanks then; keep it a pattern
+				}
+			default: // few blanks: most branches are skipped
+				for k := r.Intn(3); k > 0; k-- {
+					body[r.Intn(len(body))] = blank
+				}
+			}
+			specs := []spec{{kind, body, blank}}
+			if r.Chance(1, 2) {
+				doP(randProv(r, alpha, words), specs, words)
+			} else {
+				do(specs, words)
+			}
+		}
+	}
+
+	// hubs: a root (and one inner node) with 127..256 outgoing links
+	for _, deg := range []int{127, 128, 129, 255, 256} {
+		for i := g.Pick(2, 10); i > 0; i-- {
+			letters := r.Perm(256)[:deg]
+			sort.Ints(letters)
+			var ws [][]byte
+			hub := byte(letters[r.Intn(deg)])
+			for _, c := range letters {
+				ws = append(ws, []byte{byte(c)})
+				if r.Chance(1, 2) {
+					ws = append(ws, []byte{hub, byte(c)})
+				}
+				if r.Chance(1, 8) {
+					ws = append(ws, []byte{byte(c), hub})
+				}
+			}
+			words := sortDedupe(ws)
+			alpha := []byte{hub, byte(letters[0]), byte(letters[deg-1]), byte(letters[r.Intn(deg)])}
+			blank := randBlank(r, alpha)
+			specs := []spec{randSpec(r, alpha, words[r.Intn(len(words))], blank)}
+			doP(randProv(r, alpha, words), specs, words)
+			doP(plain, []spec{{'P', []byte{hub, blank}, blank}}, words)
+			doP(randProv(r, alpha, words), []spec{{'A', []byte{blank, hub}, blank}}, words)
+		}
 	}
 	// long words with repeated letters and anagrams of more than 12 letters
 	countLong := g.Pick(300, 12000)
